@@ -40,8 +40,8 @@ def spec_filter(rows, m, p, n):
 
 
 def store_case(rows, m, p, n):
-    """Replay harness: put `rows` ([module, qualname, a, r, y]) into a real SQLiteStore and compare
-    filter(m, p, n) with the specification."""
+    """Replay harness: put `rows` ([module, qualname, a, r, y]) into a real SQLiteStore (in this
+    insertion order; all on the same day) and compare filter(m, p, n) with the specification."""
     conn = sqlite3.connect(":memory:")
     create_call_trace_table(conn)
     store = SQLiteStore(conn)
@@ -122,6 +122,7 @@ class ModelConnection:
         self.fail_after, self.exc = fail_after, exc
         self.depth = 0
         self.transactions = 0
+        self.rows_written = 0  # across all executemany calls: the interruption point is global
 
     def __enter__(self):
         self.depth += 1
@@ -136,9 +137,10 @@ class ModelConnection:
         return False
 
     def executemany(self, sql, rows):
-        for i, r in enumerate(rows):
-            if self.fail_after is not None and i == self.fail_after:
+        for r in rows:
+            if self.fail_after is not None and self.rows_written == self.fail_after:
                 raise self.exc("write interrupted")
+            self.rows_written += 1
             (self.pending if self.depth else self.committed).append(tuple(r)[1:])
 
     def execute(self, sql, values=()):
@@ -198,6 +200,46 @@ def atomic_body(t, via_logger):
 
 
 tape_harness("atomic", [("t", 8)], {"via_logger": "bool"}, atomic_body, globals())
+
+BIG_SIZES = (600, 1100)
+BIG_FAULTS = (0, 1, 499, 500, 501, 999, 1000, -1, None)  # -1: after all but the last row; None: no fault
+
+
+def atomic_big_body(t, quick=False):
+    """A large batch: the whole batch must still be ONE transaction (all rows or none)."""
+    n = BIG_SIZES[0] if quick else BIG_SIZES[t.take(len(BIG_SIZES))]
+    faults = (500, None) if quick else BIG_FAULTS
+    fa = faults[t.take(len(faults))]
+    one_bad = t.take(3)  # 0: all serialisable, 1: the first is not, 2: the last is not
+    funcs = (F.mod_func, F.no_args, F.defaults, F.kw_only)
+    traces = [CallTrace(funcs[i % 4], {"a": int, "n": (int, str, float, bool)[(i // 4) % 4]}, (int, str)[(i // 16) % 2], None) for i in range(n)]
+    if one_bad == 1:
+        traces[0] = CallTrace(Unserialisable(), {}, None, None)
+    elif one_bad == 2:
+        traces[-1] = CallTrace(Unserialisable(), {}, None, None)
+    n_good = n - (1 if one_bad else 0)
+    fail_after = None if fa is None else (n_good - 1 if fa == -1 else fa)
+    conn = ModelConnection(fail_after, sqlite3.OperationalError)
+    raised = None
+    try:
+        SQLiteStore(conn).add(traces)
+    except Exception as e:  # noqa: BLE001
+        raised = e
+    got = len(conn.committed)
+    if fail_after is not None and fail_after < n_good:
+        return check(got == 0 and raised is not None, lambda: f"batch of {n} traces interrupted after {fail_after} rows: {got} rows stayed committed (must be none)")
+    return check(got == n_good and raised is None, lambda: f"batch of {n} traces, no interruption: {got} of {n_good} serialisable traces committed, raised {raised!r}")
+
+
+tape_harness("atomic_big", [("t", 3)], {}, lambda t: atomic_big_body(t, False), globals())
+tape_harness("atomic_big_quick", [("t", 3)], {}, lambda t: atomic_big_body(t, True), globals())
+
+
+def big_shards(name):
+    from engine.verdicts import enumerate_prefixes
+
+    q = name.endswith("quick")
+    return [{f"t{j}": v for j, v in enumerate(p)} for p in enumerate_prefixes(lambda t: atomic_big_body(t, q), 3)]
 
 
 def atomic_shards():
